@@ -323,7 +323,8 @@ Definition micro (s : state) (t : nat) : option (state * list Z) :=
                        gcnt := gcnt l; bag := bag l; must_collect := true; collecting := collecting l;
                        advance_count := advance_count l; prev_epoch := prev_epoch l; frames := frames l;
                        prog := prog l; registered := registered l |} in
-          if collecting l then ret l' (FRepin16 :: k) [] else ret l' k []
+          (* re-pin only when the guard being dropped is the only one alive (D8 repair) *)
+          if collecting l && Nat.eqb (gcnt l) 1 then ret l' (FRepin16 :: k) [] else ret l' k []
       | FDeferIncr =>
           let ac := (advance_count l + 1) mod 2 ^ 64 in
           let l' := {| ann := ann l; pinned := pinned l; valid := valid l; incs := incs l; serial := serial l;
